@@ -175,6 +175,18 @@ func checkHistory(h scen.C06History, bound int, out *shardOut) {
 	for _, v := range vecs {
 		obs, _, err := execute(h, v)
 		out.Executions++
+		if err != nil && strings.Contains(err.Error(), "scenario setup: ") {
+			// a transaction of the scenario's set-up that is accepted under the default choices is refused under this
+			// vector: the result of a transaction depends on the choice
+			msg := err.Error()
+			if j := strings.Index(msg, "\n"); j > 0 {
+				msg = msg[:j]
+			}
+			out.Viols = append(out.Viols, mc.Record{Property: "C06", Scenario: h.Sc.Name(), Kind: "c06", Clause: "identical-results-on-independent-executions",
+				Signature: "identical-results-on-independent-executions:tx depends-on=" + depOf(v),
+				Detail:    fmt.Sprintf("choice vector %s: a set-up transaction that is accepted under the default choices fails: %s", v, trunc(msg)), Path: h.Path, Case: v.String()})
+			return
+		}
 		if err != nil {
 			out.Harness = append(out.Harness, fmt.Sprintf("%s %v under %s: %v", h.Sc.Name(), h.Path, v, err))
 			continue
@@ -184,22 +196,7 @@ func checkHistory(h scen.C06History, bound int, out *shardOut) {
 			if what == "" {
 				what = kindOfLine(y)
 			}
-			dep := "map-iteration-order"
-			if v.Clock == 1 && len(v.Maps) == 0 && v.Rng == 0 && v.Zone == 0 && v.Restart == 0 && v.Sim == 0 {
-				dep = "wall-clock"
-			} else if v.Rng == 1 && len(v.Maps) == 0 && v.Clock == 0 && v.Zone == 0 && v.Restart == 0 && v.Sim == 0 {
-				dep = "process-local-randomness"
-			} else if v.Zone == 1 && len(v.Maps) == 0 && v.Clock == 0 && v.Rng == 0 && v.Restart == 0 && v.Sim == 0 {
-				dep = "host-time-zone"
-			} else if v.Restart > 0 && len(v.Maps) == 0 && v.Clock == 0 && v.Rng == 0 && v.Zone == 0 && v.Sim == 0 {
-				dep = "process-memory-lost-by-a-restart"
-			} else if v.Sim == 1 && len(v.Maps) == 0 && v.Clock == 0 && v.Rng == 0 && v.Zone == 0 && v.Restart == 0 && v.GC == 0 {
-				dep = "process-memory-left-by-a-simulated-transaction"
-			} else if v.GC == 1 && len(v.Maps) == 0 && v.Clock == 0 && v.Rng == 0 && v.Zone == 0 && v.Restart == 0 && v.Sim == 0 {
-				dep = "garbage-collection-timing"
-			} else if v.Procs > 0 && len(v.Maps) == 0 && v.Clock == 0 && v.Rng == 0 && v.Zone == 0 && v.Restart == 0 && v.Sim == 0 && v.GC == 0 {
-				dep = "number-of-cpus"
-			}
+			dep := depOf(v)
 			out.Viols = append(out.Viols, mc.Record{Property: "C06", Scenario: h.Sc.Name(), Kind: "c06", Clause: "identical-results-on-independent-executions",
 				Signature: "identical-results-on-independent-executions:" + what + " depends-on=" + dep,
 				Detail:    fmt.Sprintf("choice vector %s changes observation %d: %q vs %q", v, i, trunc(x), trunc(y)), Path: h.Path, Case: v.String()})
@@ -209,6 +206,27 @@ func checkHistory(h scen.C06History, bound int, out *shardOut) {
 	if len(out.Samples) < 3 {
 		out.Samples = append(out.Samples, append([]string{h.Sc.Name()}, h.Path...))
 	}
+}
+
+// depOf names what a single-deviation choice vector stands for.
+func depOf(v vec) string {
+	dep := "map-iteration-order"
+	if v.Clock == 1 && len(v.Maps) == 0 && v.Rng == 0 && v.Zone == 0 && v.Restart == 0 && v.Sim == 0 {
+		dep = "wall-clock"
+	} else if v.Rng == 1 && len(v.Maps) == 0 && v.Clock == 0 && v.Zone == 0 && v.Restart == 0 && v.Sim == 0 {
+		dep = "process-local-randomness"
+	} else if v.Zone == 1 && len(v.Maps) == 0 && v.Clock == 0 && v.Rng == 0 && v.Restart == 0 && v.Sim == 0 {
+		dep = "host-time-zone"
+	} else if v.Restart > 0 && len(v.Maps) == 0 && v.Clock == 0 && v.Rng == 0 && v.Zone == 0 && v.Sim == 0 {
+		dep = "process-memory-lost-by-a-restart"
+	} else if v.Sim == 1 && len(v.Maps) == 0 && v.Clock == 0 && v.Rng == 0 && v.Zone == 0 && v.Restart == 0 && v.GC == 0 {
+		dep = "process-memory-left-by-a-simulated-transaction"
+	} else if v.GC == 1 && len(v.Maps) == 0 && v.Clock == 0 && v.Rng == 0 && v.Zone == 0 && v.Restart == 0 && v.Sim == 0 {
+		dep = "garbage-collection-timing"
+	} else if v.Procs > 0 && len(v.Maps) == 0 && v.Clock == 0 && v.Rng == 0 && v.Zone == 0 && v.Restart == 0 && v.Sim == 0 && v.GC == 0 {
+		dep = "number-of-cpus"
+	}
+	return dep
 }
 
 func trunc(s string) string {
